@@ -102,6 +102,9 @@ type explorer struct {
 }
 
 // MachineryFault aborts the process with exit status 2 (never a verdict).
+// Unreproducible collects violating schedules whose re-execution gave another observation.
+var Unreproducible []string
+
 func MachineryFault(format string, a ...any) {
 	fmt.Fprintf(os.Stderr, "MACHINERY-FAULT: "+format+"\n", a...)
 	fmt.Printf("MACHINERY-FAULT (not a verdict): "+format+"\n", a...)
@@ -288,8 +291,14 @@ func (x *explorer) record(v Violation, res *Result, out string, trace string) {
 		inst2, res2 := RunOnce(x.sc, sched, en, nil, false)
 		inst2.Check(res2)
 		if res2.Status == StatusDiverged || traceOf(inst2) != trace || res2.Status != res.Status {
-			MachineryFault("scenario %s: violating schedule %v is not reproducible (run %d: status %s/%s, trace %q vs %q)",
-				x.sc.Name, sched, i, res2.Status, res.Status, traceOf(inst2), trace)
+			// Not believed, and not fatal on the spot: the exploration goes on (a state the code
+			// under test keeps between executions - a package-level cache, say - makes an
+			// execution depend on the ones before it). The driver decides at the end: reported
+			// next to the reproducible violations if there are any, a machinery fault (exit 2,
+			// never a verdict) if this is all there is.
+			Unreproducible = append(Unreproducible, fmt.Sprintf("scenario %s: violating schedule %v is not reproducible (run %d: status %s/%s, trace %q vs %q)",
+				x.sc.Name, sched, i, res2.Status, res.Status, traceOf(inst2), trace))
+			return
 		}
 	}
 	f := &Finding{Scenario: x.sc.Name, V: v, Schedule: sched, ExpectN: en, Preemptions: preemptions(res.Points), Count: 1, Outcome: out, Status: res.Status.String()}
